@@ -18,7 +18,7 @@ RULE = (
     "terminals, value_async with and without override executor, value(); a simulated backend applies the library's "
     "remove_empty_metadata / extract_metadata to the AST it received. Failed derivations are part of the history. "
     "Invariant after every step, for every stream ever created: ast.dump(query_ast), item_type, the query-metadata "
-    "view and the position / target of the executor and dataset references annotated on its nodes equal the snapshot taken at creation. Non-trivial = the history contains an execution or a derivation from a "
+    "view and the position / target of the executor and dataset references annotated on its nodes equal the snapshot taken at creation; at the end every successful derivation is repeated and must give the same query and item type as the first time (lambda pool includes free names spelled like other lambdas' parameters). Non-trivial = the history contains an execution or a derivation from a "
     "stream that already has descendants, and a typed fix-up (default argument / callback metadata) or an empty MetaData "
     "wrapper is present. Distinct by history."
 )
@@ -32,8 +32,11 @@ BUDGET = {"quick": (6, 250), "thorough": (16, 3000)}
 POOL0 = {
     "Select": ["lambda e: e.jets()", "lambda e: e.jets().Select(lambda j: j.pt())", "lambda e: {'a': e.met(), 'b': e.jets()}",
                "lambda e: e.met() + 1", "lambda e: e", "lambda e: (e.met(), e.jets(name='n').Count())", "lambda j: j.pt()", "lambda d: d.b.Count() + d.a",
-               "lambda e: e.jets().Where(lambda j: j.pt(2.0) > 1).Count()"],
-    "Where": ["lambda e: e.met() > 1", "lambda e: e.jets().Count() > 0 and e.met() > 0", "lambda j: j.pt() > 1", "lambda d: d.a > 0"],
+               "lambda e: e.jets().Where(lambda j: j.pt(2.0) > 1).Count()",
+               # free names spelled like parameters of the other lambdas (they mean nothing here: no type, no default filling)
+               "lambda x: j.pt() + e.met()", "lambda x: (x, e.jets())"],
+    "Where": ["lambda e: e.met() > 1", "lambda e: e.jets().Count() > 0 and e.met() > 0", "lambda j: j.pt() > 1", "lambda d: d.a > 0",
+              "lambda x: e.met() > j.pt()"],
     "SelectMany": ["lambda e: e.jets()", "lambda e: e.jets().Select(lambda j: j.pt(3.0))", "lambda d: d.b", "lambda e: e.jets().Where(lambda j: j.pt() > 2)"],
 }
 QKEYS = ["a", "b"]
@@ -172,6 +175,7 @@ def check(case) -> Result:
                     return f"step {step} ({what}) changed the executor / dataset annotations on the nodes of stream #{idx}: {[x[:2] for x in sn[3]]} -> {[x[:2] for x in now[3]]}"
             return None
 
+        derivations = []  # (index of the derived stream, parent index, operator, form, pool key, lambda text)
         n_value = 0
         ops = []
         for op in case["ops"]:
@@ -198,6 +202,7 @@ def check(case) -> Result:
                         n = getattr(s, kind)(shared[key])
                     else:
                         n = getattr(mod, f"f_{kind}_{key[1]}")(s)
+                    derivations.append((len(streams), on, kind, op["form"], key, lam))
                     if "jets('x')" in ast.unparse(n.query_ast) or "'cb'" in ast.unparse(n.query_ast):
                         feats["fixup"] = True
                     if "MetaData" in ast.dump(n.query_ast) and "{}" in ast.unparse(n.query_ast):
@@ -244,6 +249,26 @@ def check(case) -> Result:
                 return r.fail(err)
             if not feats.get("user-ast-modified") and any(ast.dump(v) != shared_pristine[k] for k, v in shared.items()):
                 feats["user-ast-modified"] = True  # not asserted by itself: it matters when a stream shares those nodes (invariant above)
+        # a derivation depends on the parent stream and the lambda only: repeated now, after everything else that happened, it gives
+        # the same query and item type as the first time (streams derived from a common parent are independent of each other)
+        for idx, on, kind, form, key, lam in derivations:
+            parent = streams[on][0]
+            try:
+                if form == "string":
+                    again = getattr(parent, kind)(lam)
+                elif form == "ast":
+                    again = getattr(parent, kind)(shared[key])
+                else:
+                    again = getattr(mod, f"f_{kind}_{key[1]}")(parent)
+            except Exception as e:
+                return r.fail(f"the derivation {kind}({lam}) [{form}] on stream #{on} succeeded earlier in the history and now raises {type(e).__name__}: {e}")
+            first = streams[idx][1]
+            if ast.dump(again.query_ast) != first[0]:
+                return r.fail(f"the derivation {kind}({lam}) [{form}] on stream #{on} gives another query when repeated after the rest of the history: {_short(first[0], ast.dump(again.query_ast))}")
+            if not _same_type(again.item_type, first[1]):
+                return r.fail(f"the derivation {kind}({lam}) [{form}] on stream #{on} gives item type {again.item_type} when repeated after the rest of the history, {first[1]} the first time")
+        if derivations:
+            feats["rederived-at-end"] = True
     finally:
         srcgen.unload(mod)
     for k, v in feats.items():
@@ -252,6 +277,23 @@ def check(case) -> Result:
     r.labels.append(f"streams:{min(len(streams) // 5 * 5, 25)}+")
     r.nontrivial = (feats["exec"] or feats["rederive"]) and (feats["fixup"] or feats["empty"])
     return r
+
+
+def _same_type(a, b):
+    """equal types; the anonymous dataclass func_adl makes for a dictionary result is a new class every time: compared field by field"""
+    import dataclasses
+    import typing
+
+    if a == b:
+        return True
+    if dataclasses.is_dataclass(a) and dataclasses.is_dataclass(b):
+        fa, fb = dataclasses.fields(a), dataclasses.fields(b)
+        return [f.name for f in fa] == [f.name for f in fb] and all(_same_type(x.type, y.type) for x, y in zip(fa, fb))
+    oa, ob = typing.get_origin(a), typing.get_origin(b)
+    if oa is not None and oa == ob:
+        aa, ab = typing.get_args(a), typing.get_args(b)
+        return len(aa) == len(ab) and all(_same_type(x, y) for x, y in zip(aa, ab))
+    return False
 
 
 def _short(a, b):
